@@ -74,7 +74,9 @@ def decls_nf(content):
     out = []
     for d in tinycss2.parse_declaration_list(content or [], skip_whitespace=True, skip_comments=False):
         if d.type == "declaration":
-            out.append(("decl", d.lower_name, tokens_nf(d.value), bool(d.important)))
+            # property names are ASCII case-insensitive, custom property names ("--x") are case-SENSITIVE
+            name = d.name if d.name.startswith("--") else d.lower_name
+            out.append(("decl", name, tokens_nf(d.value), bool(d.important)))
         elif d.type == "comment":
             if d.value:
                 out.append(("comment", d.value))
@@ -206,8 +208,7 @@ def last_decl(rule, name):
 
 def custom_properties(nf):
     """{name: value_nf} from TOP-LEVEL :root / html rules (later definitions win), as CSS would see them for the
-    root element; names are case-sensitive in CSS, tinycss2's lower_name lower-cases them, so the generator only
-    uses lower-case names."""
+    root element; custom property names are case-sensitive and are kept as written."""
     props = {}
     for n in nf:
         if n[0] == "rule" and selector_kind(n):
@@ -243,7 +244,7 @@ def resolve(value_nf, props, depth=0, seen=()):
         name_part = _strip_ws(tuple(name_part))
         if len(name_part) != 1 or name_part[0][0] != "ident" or not name_part[0][1].startswith("--"):
             return None
-        name = name_part[0][1].lower()
+        name = name_part[0][1]
         if name in props and name not in seen:
             r = resolve(props[name], props, depth + 1, seen + (name,))
             if r is not None and len(r) > 0:
@@ -264,7 +265,7 @@ def var_name_of(value_nf):
     if len(v) == 1 and v[0][0] == "function" and v[0][1] == "var":
         args = _strip_ws(v[0][2])
         if args and args[0][0] == "ident" and args[0][1].startswith("--"):
-            return args[0][1].lower(), any(t == ("literal", ",") for t in args)
+            return args[0][1], any(t == ("literal", ",") for t in args)
     return None
 
 
@@ -297,5 +298,8 @@ def selftest():
         raise HarnessError("O-SHEET: var() fallback resolution")
     if resolve(normal(".x{color:var(--nope)}")[0][2][0][2], props) is not None:
         raise HarnessError("O-SHEET: undefined var() must be invalid")
+    cs = custom_properties(normal(":root{--Main: #111; --main: #eee} .r1{color:var(--Main)}"))
+    if set(cs) != {"--Main", "--main"}:
+        raise HarnessError("O-SHEET: custom property names must be case-sensitive")
     if not has_error(normal(".a{*zoom:1}")):
         raise HarnessError("O-SHEET: parse errors not reported")
